@@ -743,7 +743,13 @@ def make_algorithms(case, probe):
     alg = case.get("alg", {"kind": "queue"})
     dspec = case.get("delay")
     delay_model = None
-    if dspec:
+    if dspec and dspec.get("mode") == "model":
+        # a real DelayModel (C10: same seed => same run, also back to back)
+        delay_model = DelayModel(
+            dspec.get("prob", 0.5), dspec.get("dist", "normal"),
+            getattr(DelayModel.DelayDegree, dspec.get("degree", "LOW")),
+            dspec.get("seed", 20))
+    elif dspec:
         mode = dspec.get("mode", "choice")
         script = _Script(probe, mode, dspec.get("table"),
                          dspec.get("arity", 3))
